@@ -24,7 +24,7 @@ PROP_MODULES = {
             ("C01Bin", r"^(?!.*(pow|inv|bitProd|bitQuoRem|trace)).*$"), ("C01Ext", r"^(?!.*(pow|inv|trace|log)).*$"), ("C01", r".*"),
             ("CodeTies", r"reduce_tie"), ("CodeTies2", r"prime_add|prime_sub|prime_prod|prime_setneg|prime_fromSigned|bin_add|bin_prod")],
     "C02": [("C01Prime", r"inv_|invLoop|pow|powLoop"), ("C01Bin", r"pow|inv|bitProd|bitQuoRem|trace"), ("C02", r".*"),
-            ("C01Ext", r"pow|inv|trace"), ("CodeTies", r"bitProd_tie|bitQuoRem_tie"), ("CodeTies2", r"prime_inv"), ("CodeTies3", r".*")],
+            ("C01Ext", r"pow|inv|trace"), ("CodeTies", r"bitProd_tie|bitQuoRem_tie"), ("CodeTies2", r"prime_inv"), ("CodeTies3", r".*"), ("CodeTies4", r"pow|trace")],
     "C04": [("C04", r".*"), ("C04Full", r".*")],
     "C08": [("C08", r".*"), ("CodeTies", r"addDegs_tie|subtractDegs_tie")],
     "C14": [("C14", r".*"), ("C14Full", r".*")],
@@ -32,7 +32,7 @@ PROP_MODULES = {
     "C12": [("C12", r".*"), ("C12Full", r".*")],
     "C13": [("C13", r".*"), ("C13Full", r".*"), ("C13Count", r".*")],
     "C09": [("C09", r".*"), ("CodeTies", r"swap_tie|lex_tie|lex_fun_tie|degCompare_tie|wdeglex_tie|wdegrevlex_tie|deglex_tie|degrevlex_tie")],
-    "C19": [("C19", r".*"), ("CodeTies", r"boundSqrt_tie|boundLog2_tie|pow_tie|gcd_tie"), ("CodeTies2", r"fpp_")],
+    "C19": [("C19", r".*"), ("CodeTies", r"boundSqrt_tie|boundLog2_tie|pow_tie|gcd_tie"), ("CodeTies2", r"fpp_"), ("CodeTies4", r"factorize")],
     "C03": [("C03", r".*"), ("C01", r"define_lawful|define_any_lawful|define_elements|elements_ext|descOK"), ("C01Prime", r"multGenerator|isGenerator"), ("GenTies", r"DefineConds|ffDefineCases"), ("CodeTies2", r"fpp_")],
     "C15": [("C15", r".*"), ("C15Full", r".*"), ("C15FullDefine", r".*_define$|.*fieldRoundTripB$|C15_full_bounded(_partial)?$"), ("GenTies", r"Pattern|Regex|XOrY|regex|VarName")],
     "C16": [("C16", r".*"), ("C16Static", r".*")],
